@@ -105,7 +105,7 @@ func sectionLength(psi []byte) uint16 {
 	if len(psi) < 3 {
 		return 0
 	}
-	return uint16(psi[1]&3)<<8 | uint16(psi[2])
+	return uint16(psi[1]&0x0F)<<8 | uint16(psi[2])
 }
 
 // NewPointerField will return a new pointer field with stuffing as raw bytes.
